@@ -4,7 +4,7 @@ from __future__ import annotations
 import hashlib
 import random
 
-from vf.core import SECTOR, disturb_handles
+from vf.core import FAULT, SECTOR, arm_fault, disturb_handles
 from vf.monitors import call
 
 
@@ -161,6 +161,9 @@ def continuation_reads(stream, model, reqs, rng, res: dict, mech: str, n: int = 
     size = model.size
     if size <= 0 or not reqs:
         return
+    if rng.random() < 0.5:
+        # between construction and the first read, too (lazily loaded tables must not rely on where the handle was left)
+        cnt["handle_disturbances"] = cnt.get("handle_disturbances", 0) + disturb_handles(rng)
     for _ in range(n):
         if viol:
             return
@@ -203,6 +206,53 @@ def continuation_reads(stream, model, reqs, rng, res: dict, mech: str, n: int = 
                 d["sequence"] = steps
                 viol.append({"what": "content mismatch in a read/visit-elsewhere/continue sequence", "mech": mech, "detail": d})
                 break
+
+
+def fault_retry_reads(stream, model, reqs, rng, res: dict, mech: str, n: int = 6) -> None:
+    """A transient I/O error in the middle of a read, then the same read again on the same object: the failed call
+    may raise anything, but whatever is returned - then or on the retry - is the right bytes (no half-updated cache
+    may survive the exception)."""
+    cnt = res.setdefault("cnt", {})
+    viol = res.setdefault("viol", [])
+    if model.size <= 0 or not reqs:
+        return
+    for _ in range(n):
+        if viol:
+            return
+        off, ln = rng.choice(reqs)
+        ln = max(1, min(ln, 300000))
+        exp = model.expected(off, ln)
+        fired0 = FAULT["fired"]
+        arm_fault(rng.choice([1, 1, 2, 2, 3, 4, 6]))
+        try:
+            first = call(lambda: (stream.seek(off), stream.read(ln))[1])
+        finally:
+            arm_fault(None)
+        fired = FAULT["fired"] > fired0
+        cnt["fault_injection_reads"] = cnt.get("fault_injection_reads", 0) + 1
+        cnt["faults_fired"] = cnt.get("faults_fired", 0) + int(fired)
+        if first.ok and first.value != exp:
+            d = mismatch_detail(off, ln, first.value, exp)
+            d["fault_fired"] = fired
+            viol.append({"what": "wrong bytes returned by a read during which a backend read failed" if fired else "content mismatch", "mech": mech, "detail": d})
+            return
+        if not first.ok and not fired:
+            viol.append({"what": f"exception on conformant input: {first.brief()}", "mech": mech, "detail": {"offset": off, "length": ln, "tb": first.tb}})
+            return
+        # retry (and a neighbouring read that shares tables with it)
+        for o2, l2 in ((off, ln), (max(0, off - 4096), min(ln + 8192, 300000))):
+            e2 = model.expected(o2, l2)
+            again = call(lambda: (stream.seek(o2), stream.read(l2))[1])
+            cnt["retry_reads_after_fault"] = cnt.get("retry_reads_after_fault", 0) + int(fired)
+            if not again.ok:
+                viol.append({"what": f"read after an earlier failed read raised: {again.brief()}", "mech": mech,
+                             "detail": {"offset": o2, "length": l2, "first_outcome": first.brief(), "tb": again.tb}})
+                return
+            if again.value != e2:
+                d = mismatch_detail(o2, l2, again.value, e2)
+                d["first_outcome"] = first.brief()
+                viol.append({"what": "wrong bytes after an earlier read on the same object failed with an I/O error", "mech": mech, "detail": d})
+                return
 
 
 def crossing_count(reqs, unit: int) -> int:
